@@ -230,7 +230,8 @@ def _provider_contract(ctx):
                     raise AnalysisError(f"{label} leaves the abstract interface (the provider does "
                                         f"something other than asking the tz library): {e}")
                 if meth == "localize_utc":
-                    good = isinstance(got, DT) and got.kind == "utc" and got.rank == 4 and got.tag is None
+                    good = isinstance(got, DT) and got.kind == "utc" and got.rank == 4 and \
+                        (got.tag is None or str(got.tag).startswith("utc-of:"))      # (provenance note only)
                     want = "a UTC datetime denoting the same instant"
                 else:
                     good = isinstance(got, DT) and got.kind == "zoned" and got.zone == ZONE and \
